@@ -296,9 +296,9 @@ Proof.
   - apply IH; auto.
 Qed.
 
-Lemma ragged_error_bounds_every_component t new old :
+Lemma error_bounds_every_component_lemma t new old :
   length new = length old ->
-  fle (err_of false (new, old)) (Fin t) = true ->
+  fle (err_of (new, old)) (Fin t) = true ->
   Forall2 (change_within t) new old.
 Proof.
   intros L H. unfold err_of in H. simpl in H.
@@ -307,10 +307,27 @@ Proof.
   apply reduce_nanmax_le; auto. simpl. discriminate.
 Qed.
 
-(* the rectangular case does not: np.max over an object array drops a NaN that is not last *)
-Lemma rect_error_drops_nan :
-  err_of true ([NaN; Fin 1], [Fin 1; Fin 1]) = Fin 0.
-Proof. vm_compute. reflexivity. Qed.
+(* a NaN change anywhere makes the error NaN, whatever the shape of the result list *)
+Lemma fold_nanmax_nan : forall l, fold_left nanmax2 l NaN = NaN.
+Proof. induction l as [|x l IH]; simpl; auto. Qed.
+
+Lemma fold_nanmax_in_nan : forall l acc, In NaN l -> fold_left nanmax2 l acc = NaN.
+Proof.
+  induction l as [|x l IH]; intros acc H; simpl in *; [contradiction|].
+  destruct H as [-> | H].
+  - assert (E : nanmax2 acc NaN = NaN) by (destruct acc; reflexivity). rewrite E. apply fold_nanmax_nan.
+  - now apply IH.
+Qed.
+
+Lemma nan_change_gives_nan_error new old :
+  In NaN (map2 fsub new old) -> err_of (new, old) = NaN.
+Proof.
+  unfold err_of. simpl. intros H.
+  assert (H' : In NaN (map fabs (map2 fsub new old))).
+  { apply in_map_iff. exists NaN. split; auto. }
+  destruct (map fabs (map2 fsub new old)) as [|h l]; [contradiction|]. simpl.
+  destruct H' as [-> | H']; [apply fold_nanmax_nan | now apply fold_nanmax_in_nan].
+Qed.
 
 (* ------------------------------------------------------------------------------------------ *)
 (* stage wiring                                                                                *)
@@ -377,20 +394,13 @@ Qed.
 (* stages and pipeflow                                                                         *)
 Definition ran (st : state) : Prop := exists r a, st = newton (ri_cfg r) (ri_orc r) false a.
 
-Definition pop_of (k : stage_kind) (reuse : bool) (x : netst) : netst :=
-  match k with KHeat => x | _ => if reuse then x else set_idata x false end.
-
-Lemma pop_conv k reuse x : n_conv (pop_of k reuse x) = n_conv x /\ n_tables (pop_of k reuse x) = n_tables x
-  /\ n_hyd_flag (pop_of k reuse x) = n_hyd_flag x.
-Proof. unfold pop_of. destruct k, reuse; simpl; auto. Qed.
-
 Definition stage_post (n : netst) (res : netst * outcome * list state) : Prop :=
   let '(n', o, sts) := res in
-  n_tables n' = n_tables n /\ o <> OtherError /\
+  n_tables n' = n_tables n /\
   (n_hyd_flag n = true -> n_hyd_flag n' = true) /\
   Forall ran sts /\
   (o = Returned -> n_conv n' = true /\ sts <> [] /\ Forall (fun st => s_conv st = true) sts) /\
-  (o = NotConverged -> n_conv n' = false).
+  (o <> Returned -> n_conv n' = false).
 
 Ltac fin := simpl; repeat split; intros; auto; try discriminate; try congruence;
             try (repeat constructor; auto; fail).
@@ -403,123 +413,122 @@ Lemma stage_spec k reuse hu : forall more r n, stage_post n (stage k reuse hu r 
 Proof.
   induction more as [|r' more IH]; intros r n.
   - destruct k; simpl.
-    + grab r. destruct (s_conv st) eqn:E; [destruct (ri_rerun r)|]; destruct reuse; fin.
-    + destruct hu; [fin|]. grab r. destruct (s_conv st) eqn:E; [destruct (ri_rerun r)|]; fin.
-    + grab r. destruct (s_conv st) eqn:E; destruct reuse; fin.
+    + destruct (ri_escape r); [|fin|fin].
+      grab r. destruct (s_conv st) eqn:E; [destruct (ri_rerun r)|]; destruct reuse; fin.
+    + destruct hu; [fin|]. destruct (ri_escape r); [|fin|fin].
+      grab r. destruct (s_conv st) eqn:E; [destruct (ri_rerun r)|]; fin.
+    + destruct (ri_escape r); [|fin|fin].
+      grab r. destruct (s_conv st) eqn:E; destruct reuse; fin.
   - destruct k; simpl.
     + (* hydraulics *)
+      destruct (ri_escape r); [|fin|fin].
       grab r. destruct (s_conv st) eqn:E; [|destruct reuse; fin].
       destruct (ri_rerun r); [|destruct reuse; fin].
       match goal with |- context [stage KHyd reuse hu r' more ?n3] =>
         pose proof (IH r' n3) as P; destruct (stage KHyd reuse hu r' more n3) as [[n4 o] sts] end.
-      unfold stage_post in P. simpl in P. destruct P as [T [NO [HF [RN [RT NC]]]]].
-      destruct o; [| |congruence].
+      unfold stage_post in P. simpl in P. destruct P as [T [HF [RN [RT NC]]]].
+      destruct o.
       * destruct (RT eq_refl) as [C [NE FA]]. destruct reuse; simpl; rewrite C; fin;
           try (apply Forall_app; split; auto); try (destruct sts; simpl in *; congruence).
-      * destruct reuse; fin; apply Forall_app; split; auto.
+      * destruct reuse; fin; try (apply Forall_app; split; auto); apply NC; discriminate.
+      * destruct reuse; fin; try (apply Forall_app; split; auto); apply NC; discriminate.
     + (* heat *)
-      destruct hu; [fin|]. grab r. destruct (s_conv st) eqn:E; [|fin].
+      destruct hu; [fin|]. destruct (ri_escape r); [|fin|fin].
+      grab r. destruct (s_conv st) eqn:E; [|fin].
       destruct (ri_rerun r); [|fin].
       match goal with |- context [stage KHeat reuse false r' more ?n3] =>
         pose proof (IH r' n3) as P; destruct (stage KHeat reuse false r' more n3) as [[n4 o] sts] end.
-      unfold stage_post in P. simpl in P. destruct P as [T [NO [HF [RN [RT NC]]]]].
-      destruct o; [| |congruence].
+      unfold stage_post in P. simpl in P. destruct P as [T [HF [RN [RT NC]]]].
+      destruct o.
       * destruct (RT eq_refl) as [C [NE FA]]. simpl; rewrite C; fin;
           try (apply Forall_app; split; auto); try (destruct sts; simpl in *; congruence).
-      * fin; apply Forall_app; split; auto.
-    + grab r. destruct (s_conv st) eqn:E; destruct reuse; fin.
+      * fin; try (apply Forall_app; split; auto); apply NC; discriminate.
+      * fin; try (apply Forall_app; split; auto); apply NC; discriminate.
+    + destruct (ri_escape r); [|fin|fin].
+      grab r. destruct (s_conv st) eqn:E; destruct reuse; fin.
 Qed.
 
-Definition pipeflow_post (n : netst) (res : netst * outcome * list state) : Prop :=
+Definition pipeflow_post (e : penv) (n : netst) (res : netst * outcome * list state) : Prop :=
   let '(n', o, sts) := res in
   (o = Returned -> n_conv n' = true /\ n_tables n' = Written /\ sts <> [] /\
                    Forall ran sts /\ Forall (fun st => s_conv st = true) sts) /\
   (o = NotConverged -> n_conv n' = false /\ n_tables n' = AllNaN) /\
-  (n_tables n' = Written -> o = Returned \/ (o = OtherError /\ n' = n)) /\
-  (o = OtherError -> (n' = n) \/ n_tables n' = AllNaN \/ (n_tables n' = Partial /\ n_conv n' = true)).
+  (n_tables n' = Written -> o = Returned \/ (o = OtherException /\ n' = n)) /\
+  (* any other exception: nothing was touched (init_options), or the tables are all NaN ... *)
+  (o = OtherException -> n' = n \/ n_tables n' = AllNaN) /\
+  (* ... and once the set-up phase is through (net.converged = False executed) - in particular
+     when the exception is raised while the results are extracted - the net is marked not converged *)
+  (o = OtherException -> pe_options_raise e = false -> pe_setup_raise e = false ->
+     n_conv n' = false /\ n_tables n' = AllNaN).
 
 Definition after_extract (e : penv) (x : netst * outcome * list state) : netst * outcome * list state :=
   let '(n', o, sts) := x in
   match o with
-  | Returned => if pe_extract_raise e then (set_tables n' Partial, OtherError, sts)
+  | Returned => if pe_extract_raise e
+                then (set_conv (set_tables n' AllNaN) false (n_alpha n'), OtherException, sts)
                 else (set_tables n' Written, Returned, sts)
   | _ => x
   end.
 
 Lemma after_post e n0 n x :
-  n_tables n = AllNaN -> stage_post n x -> pipeflow_post n0 (after_extract e x).
+  n_tables n = AllNaN -> stage_post n x -> pipeflow_post e n0 (after_extract e x).
 Proof.
   intros TN. destruct x as [[n' o] sts]. unfold stage_post, after_extract, pipeflow_post.
-  intros [T [NO [HF [RN [RT NC]]]]]. destruct o.
+  intros [T [HF [RN [RT NC]]]]. destruct o.
   - destruct (RT eq_refl) as [C [NE FA]]. destruct (pe_extract_raise e); simpl; repeat split; auto; try discriminate.
-  - repeat split; auto; try discriminate; try congruence.
-  - congruence.
+  - repeat split; auto; try discriminate; try congruence. apply NC; discriminate.
+  - repeat split; auto; try discriminate; try congruence; try (right; congruence). apply NC; discriminate.
 Qed.
 
-Lemma pipeflow_outcome_lemma m e n : pipeflow_post n (pipeflow m e n).
+Lemma pipeflow_outcome_lemma m e n : pipeflow_post e n (pipeflow m e n).
 Proof.
-  unfold pipeflow. destruct (pe_options_raise e).
-  { simpl. repeat split; try discriminate; auto. }
-  destruct (pe_setup_raise e).
-  { simpl. repeat split; try discriminate; auto. }
+  unfold pipeflow. destruct (pe_options_raise e) eqn:EO.
+  { simpl. repeat split; intros; try discriminate; try congruence; auto. }
+  destruct (pe_setup_raise e) eqn:ES.
+  { simpl. repeat split; intros; try discriminate; try congruence; auto. }
   destruct (pe_unsupplied e).
-  { simpl. repeat split; try discriminate; auto. }
+  { simpl. repeat split; intros; try discriminate; try congruence; auto. }
   destruct (pe_conn_raise e).
-  { simpl. repeat split; try discriminate; auto. }
+  { simpl. repeat split; intros; try discriminate; try congruence; auto. }
   match goal with |- context [set_conv ?a false ?b] => set (n1 := set_conv a false b) end.
   assert (TN : n_tables n1 = AllNaN) by reflexivity.
   destruct m.
   - apply (after_post e n n1 _ TN). apply stage_spec.
   - simpl n_hyd_flag. destruct (n_hyd_flag n).
     + apply (after_post e n n1 _ TN). apply stage_spec.
-    + simpl. repeat split; try discriminate; auto.
+    + simpl. repeat split; intros; try discriminate; try congruence; auto.
   - pose proof (stage_spec KHyd (pe_reuse e) false (snd (pe_hyd e)) (fst (pe_hyd e)) n1) as P.
     destruct (stage KHyd (pe_reuse e) false (fst (pe_hyd e)) (snd (pe_hyd e)) n1) as [[n2 o1] s1].
-    unfold stage_post in P. destruct P as [T [NO [HF [RN [RT NC]]]]]. destruct o1; [| |congruence].
+    unfold stage_post in P. destruct P as [T [HF [RN [RT NC]]]]. destruct o1.
     + destruct (RT eq_refl) as [C [NE FA]].
       pose proof (stage_spec KHeat (pe_reuse e) (pe_heat_unsupplied e) (snd (pe_heat e)) (fst (pe_heat e)) n2) as P2.
       destruct (stage KHeat (pe_reuse e) (pe_heat_unsupplied e) (fst (pe_heat e)) (snd (pe_heat e)) n2) as [[n3 o2] s2].
       assert (TN2 : n_tables n2 = AllNaN) by congruence.
       apply (after_post e n n2 (n3, o2, (s2 ++ s1)%list) TN2).
-      unfold stage_post in *. destruct P2 as [T2 [NO2 [HF2 [RN2 [RT2 NC2]]]]].
+      unfold stage_post in *. destruct P2 as [T2 [HF2 [RN2 [RT2 NC2]]]].
       repeat split; auto; try (apply Forall_app; split; auto); try (apply RT2; auto; fail).
       all: try (intros H; destruct (RT2 H) as [C2 [NE2 FA2]]; auto).
       all: try (destruct s2; simpl; congruence).
-    + simpl. repeat split; try discriminate; auto; try (apply NC; auto); try congruence.
+    + simpl. repeat split; try discriminate; auto; try (apply NC; discriminate); try congruence.
+    + simpl. repeat split; try discriminate; auto; try (apply NC; discriminate); try congruence;
+        try (right; congruence).
   - apply (after_post e n n1 _ TN). apply stage_spec.
-  - simpl. repeat split; try discriminate; auto.
+  - simpl. repeat split; intros; try discriminate; try congruence; auto.
 Qed.
 
-(* exceptions other than PipeflowNotConverged are not covered by the property's second half:
-   an exception raised by a component's extract_results leaves converged = True and partly
-   written tables (the model shows the path; tools/props/c05.py looks for it on real nets) *)
-Lemma other_error_can_leave_results :
-  exists m e n, let '(n', o, _) := pipeflow m e n in
-    o = OtherError /\ n_conv n' = true /\ n_tables n' = Partial.
+(* _internal_data does not survive a stage that ends by itself unless reuse_internal_data is set *)
+Lemma stage_idata k hu : forall more r n, k <> KHeat ->
+  ri_escape r = NoEscape -> Forall (fun x => ri_escape x = NoEscape) more ->
+  n_idata (fst (fst (stage k false hu r more n))) = false.
 Proof.
-  set (cfg := {| c_max_iter := 1; c_meth := Constant; c_nvars := 1; c_tols := [Fin 1]; c_tol_res := Fin 1; c_nrestore := 0 |}).
-  set (r := {| ri_cfg := cfg; ri_orc := fun _ => {| o_errs := [Fin 0]; o_res := Fin 0 |}; ri_rerun := false |}).
-  exists MHydraulics,
-    {| pe_options_raise := false; pe_setup_raise := false; pe_unsupplied := false; pe_conn_raise := false;
-       pe_heat_unsupplied := false; pe_extract_raise := true; pe_reuse := false; pe_alpha0 := 1;
-       pe_hyd := (r, []); pe_heat := (r, []); pe_bid := r |},
-    {| n_conv := false; n_tables := AllNaN; n_hyd_flag := false; n_idata := false; n_alpha := 1 |}.
-  vm_compute. auto.
-Qed.
-
-(* hyd_flag is only ever set, and only by a converged hydraulic / bidirectional stage;
-   _internal_data does not survive a stage unless reuse_internal_data is set *)
-Lemma stage_idata k reuse hu : forall more r n, k <> KHeat -> reuse = false ->
-  n_idata (fst (fst (stage k reuse hu r more n))) = false.
-Proof.
-  induction more as [|r' more IH]; intros r n Hk Hr; subst reuse.
-  - destruct k; try congruence; simpl.
+  induction more as [|r' more IH]; intros r n Hk He Hm.
+  - destruct k; try congruence; simpl; rewrite He.
     + destruct (s_conv _); [destruct (ri_rerun r)|]; reflexivity.
     + destruct (s_conv _); reflexivity.
-  - destruct k; try congruence; simpl.
+  - inversion Hm; subst. destruct k; try congruence; simpl; rewrite He.
     + destruct (s_conv _); [|reflexivity]. destruct (ri_rerun r); [|reflexivity].
       match goal with |- context [stage KHyd false hu r' more ?n3] =>
-        pose proof (IH r' n3 Hk eq_refl) as P; destruct (stage KHyd false hu r' more n3) as [[n4 o] sts] end.
+        pose proof (IH r' n3 Hk H1 H2) as P; destruct (stage KHyd false hu r' more n3) as [[n4 o] sts] end.
       simpl in P. destruct o; simpl; auto.
     + destruct (s_conv _); reflexivity.
 Qed.
